@@ -30,6 +30,10 @@ CHECKS = {
          "Each swept date is stepped by the month counts both ways, every with_* is applied with the in-domain argument ranges plus alias arguments, the 7 week starts are queried; from_weekday_of_month_opt is enumerated for all months 0..=13 x 7 weekdays x all 256 n per alphabet year; years_since on all pairs of boundary dates.",
          "Trusted: RefCal. u32 arguments beyond the in-domain ranges are represented by alias classes.",
          "DESIGN.md §4 C08"),
+ 'C17': ("complete small scope (every stamp x every span 1..=40 ns x 3 operations), complete product of boundary stamps x span alphabet x offsets with a second application (idempotence), and all 65,536 digit counts x nanosecond lattice, against i128 floor arithmetic",
+         "All sign/tie/multiple combinations occur in the exhaustively enumerated small scope; boundary products cover the 64-bit nanosecond window ends, both date range ends, spans around i64::MAX, zero/negative/inexpressible spans and the wall-clock basis for offsets; each successful result is re-rounded (depth 2) to show idempotence.",
+         "Trusted: i128 floor arithmetic; RefLeapTime for leap-second operands of the sub-second operations. The RoundingError variant is not judged.",
+         "DESIGN.md §4 C17"),
  'C19': ("exhaustive enumeration of the whole quantified domain: 7 weekdays, 12 months, 128 sets x 7 days, 128^2 set pairs, and every next/next_back history of the set iterator from all 896 initial states against a reference deque; conversions on integer lattices with alias classes; text parsing on all case variants, 1-edit mutants and short strings",
          "Everything the statement quantifies over is finite and is enumerated completely (exhaustive: true), except the integer and string arguments of the conversions, which are covered by lattices/alias classes and by all strings up to a length bound plus all 1-edit mutants of every name.",
          "Trusted: a [bool;7]/bitmask reference set and name tables written from the statement.",
